@@ -421,7 +421,41 @@ def r14_12(chk):
     chk.floor("R14.12", 1, "NotCompleted.__new__")
 
 
+def r14_13(chk):
+    chk.rule("R14.13", "`identifier in data_store` -- the test apply_to uses to skip inputs already dealt with and _check_writable uses to refuse a second write -- ranges over ALL members: DataStoreABC.__contains__ iterates self / self.members, members is completed + not_completed, __iter__ yields from members, and a subclass override ends in super().__contains__ (restricted to the completed records, an input recorded as not-completed is run again on a resumed apply_to and its second not-completed record collides with the first)")
+    m = chk.repo.module("app/data_store.py")
+    ci = m.cls("DataStoreABC")
+    fn = ci.methods.get("__contains__")
+    if fn is None:
+        raise AnalysisError("DataStoreABC.__contains__ not found")
+    gens = [g for x in walk_no_nested(fn) if isinstance(x, (ast.GeneratorExp, ast.ListComp, ast.SetComp)) for g in x.generators] + [ast.comprehension(target=lp.target, iter=lp.iter, ifs=[], is_async=0) for lp in walk_no_nested(fn) if isinstance(lp, ast.For)]
+    k = key(m, "DataStoreABC.__contains__", "ranges over all members")
+    if not gens:
+        chk.unresolved("R14.13", k, m.loc(fn), "no iteration found")
+    else:
+        it = norm(gens[0].iter)
+        both = it in ("self", "self.members", "iter(self)") or ("completed" in it and "not_completed" in it and it.count("completed") >= 2)
+        chk.decide(both, "R14.13", k, m.loc(fn), f"iterates `{it}`", f"iterates `{it}`: not-completed records are not `in` the store, so a resumed apply_to re-runs an input that failed before and writes a second record for it")
+    mem = ci.methods.get("members")
+    rets = [r for r in walk_no_nested(mem) if isinstance(r, ast.Return) and r.value is not None] if mem is not None else []
+    txt = norm(rets[0].value) if rets else ""
+    chk.decide("self.completed" in txt and "self.not_completed" in txt, "R14.13", key(m, "DataStoreABC.members", "completed and not completed"), m.loc(mem or fn), f"members = {txt}", f"members = `{txt}` leaves out a kind of record")
+    itf = ci.methods.get("__iter__")
+    ys = [norm(y.value) for y in ast.walk(itf) if isinstance(y, (ast.YieldFrom, ast.Yield)) and y.value is not None] if itf is not None else []
+    chk.decide(bool(ys) and all("self.members" in y or ("completed" in y and "not_completed" in y) for y in ys), "R14.13", key(m, "DataStoreABC.__iter__", "yields the members"), m.loc(itf or fn), f"yields {ys}", f"__iter__ yields {ys}, not the members")
+    # overrides
+    for sub in chk.repo.subclasses_of(ci):
+        o = sub.methods.get("__contains__")
+        if o is None:
+            continue
+        rs = [r for r in walk_no_nested(o) if isinstance(r, ast.Return) and r.value is not None]
+        deleg = bool(rs) and all("super().__contains__" in norm(r.value) or "self.members" in norm(r.value) for r in rs)
+        chk.decide(deleg, "R14.13", key(sub.module, f"{sub.name}.__contains__", "delegates to the base test"), sub.module.loc(o), "every return goes through super().__contains__", "an override answers without the base membership test")
+    chk.floor("R14.13", 3, "__contains__, members, __iter__")
+
+
 def run(chk):
+    r14_13(chk)
     r14_12(chk)
     r14_10(chk)
     r14_9(chk)
